@@ -114,7 +114,11 @@ class DtnTimeField(UintField):
         return delta + DtnTimeField.DTN_EPOCH
 
     def i2h(self, pkt, x):
-        dtval = DtnTimeField.dtntime_to_datetime(x)
+        try:
+            dtval = DtnTimeField.dtntime_to_datetime(x)
+        except OverflowError:
+            # a valid DTN time beyond what datetime can represent
+            return x
         if dtval is None:
             return None
         return dtval
